@@ -7,4 +7,5 @@ INVARIANT InvFlagsAndValues
 INVARIANT InvDeclaredEnforced
 INVARIANT InvGenerateOutcome
 INVARIANT InvCheckOutcome
+INVARIANT InvModelParams
 CHECK_DEADLOCK FALSE
